@@ -96,33 +96,9 @@ def run(ctx):
            "CoefficientCollector.map_sum does not accumulate every child's "
            "coefficients (a repeated key must be added to, a new key stored)")
 
-    # map_product: raise when a second factor carries variables
+    # map_product: roles found by data flow, then two facts
     mem = model.lookup(cc, "map_product")
-    raises = [r for r in ast.walk(mem.node) if isinstance(r, ast.Raise)]
-    ok = False
-    for r in raises:
-        par = mem.owner.module.parent(r)
-        if isinstance(par, ast.If):
-            t = ast.unparse(par.test).replace(" ", "").replace("(", "").replace(
-                ")", "")
-            outer = mem.owner.module.parent(par)
-            guard = isinstance(outer, ast.If) and ast.unparse(
-                outer.test).replace(" ", "") == "k!=1"
-            if "idx_of_child_with_varsisnotNone" in t and \
-                    "idx_of_child_with_vars!=i" in t and guard:
-                ok = True
-    ctx.ob("P/CoefficientCollector/map_product/nonlinear-raises", ok, where(mem),
-           "a second factor with a non-constant key raises" if ok else
-           "CoefficientCollector.map_product no longer raises when two different "
-           "factors carry variables: a nonlinear product yields coefficients")
-    src = ast.unparse(mem.node).replace(" ", "")
-    ok = "children_coeffs=[self.rec(child)forchildinexpr.children]" in src and \
-        "other_coeffs*=child_coeffs[1]" in src and "ifi!=idx_of_child_with_vars:" \
-        in src
-    ctx.ob("K/CoefficientCollector/map_product/all-factors", ok, where(mem),
-           "all other factors are multiplied into the coefficient" if ok else
-           "map_product does not multiply every other factor's constant into the "
-           "coefficient")
+    _map_product(ctx, model, mem)
 
     # quotient / power guards
     # (path rule: a result is returned only after the stride dict of the
@@ -268,6 +244,149 @@ def _exact_divisions(ctx, model):
         ctx.ob(f"P/gaussian_elimination/exact-division:{nsrc}//{dsrc}", ok, loc,
                f"{nsrc} // {dsrc} is exact by construction" if ok else why)
     ctx.floor("floor divisions in gaussian_elimination", n, 4)
+
+
+def _map_product(ctx, model, mem):
+    """CoefficientCollector.map_product:
+    (A) while scanning the factors' coefficient dicts, meeting a non-constant
+        key in a *second* factor raises (the product is not affine);
+    (B) the constants of every other factor are multiplied into the result."""
+    fn = model.inlined(mem.node)
+    U = lambda n: ast.unparse(n).replace(" ", "")       # noqa: E731
+    node_p = fn.args.args[1].arg
+    # CC: the list of per-factor coefficient dicts
+    CC = None
+    for st in ast.walk(fn):
+        if isinstance(st, ast.Assign) and isinstance(st.value, ast.ListComp) and \
+                len(st.targets) == 1 and isinstance(st.targets[0], ast.Name):
+            g = st.value.generators[0]
+            if U(g.iter) == f"{node_p}.children" and \
+                    U(st.value.elt) == f"self.rec({U(g.target)})" and not g.ifs:
+                CC = st.targets[0].id
+    if CC is None:
+        raise AnalysisError("map_product: the list of factor coefficients was "
+                            "not found")
+    # aliases of CC created by inlining (parameter copies)
+    cc_names = {CC}
+    for _ in range(3):
+        for st in ast.walk(fn):
+            if isinstance(st, ast.Assign) and isinstance(st.value, ast.Name) and \
+                    st.value.id in cc_names and isinstance(st.targets[0], ast.Name):
+                cc_names.add(st.targets[0].id)
+    loops = [lp for lp in ast.walk(fn) if isinstance(lp, ast.For)
+             and isinstance(lp.iter, ast.Call) and U(lp.iter.func) == "enumerate"
+             and lp.iter.args and U(lp.iter.args[0]) in cc_names
+             and isinstance(lp.target, ast.Tuple)]
+    if len(loops) < 2:
+        raise AnalysisError("map_product: the two passes over the factors were "
+                            "not found")
+
+    def enclosing_tests(root, target):
+        """conditions (test, polarity) of the Ifs between root and target"""
+        out = []
+
+        def walk(node, acc):
+            if node is target:
+                out.append(list(acc))
+                return
+            if isinstance(node, ast.If):
+                for ch in node.body:
+                    walk(ch, acc + [(node.test, True)])
+                for ch in node.orelse:
+                    walk(ch, acc + [(node.test, False)])
+                return
+            for ch in ast.iter_child_nodes(node):
+                if isinstance(ch, (ast.stmt,)):
+                    walk(ch, acc)
+        walk(root, [])
+        return out[0] if out else None
+
+    def atoms(tests):
+        """atomic (text, polarity) facts of a conjunction of tests"""
+        res = set()
+
+        def add(t, pol):
+            if isinstance(t, ast.UnaryOp) and isinstance(t.op, ast.Not):
+                add(t.operand, not pol)
+            elif isinstance(t, ast.BoolOp) and ((isinstance(t.op, ast.And) and pol)
+                                                or (isinstance(t.op, ast.Or)
+                                                    and not pol)):
+                for v in t.values:
+                    add(v, pol)
+            else:
+                res.add((U(t), pol))
+        for t, pol in tests:
+            add(t, pol)
+        return res
+
+    # (A) the scanning pass: the loop that contains a raise
+    scan = [lp for lp in loops if any(isinstance(r, ast.Raise)
+                                      for r in ast.walk(lp))]
+    okA = False
+    R = None
+    if scan:
+        lp = scan[0]
+        i = lp.target.elts[0].id
+        # the remembered index: assigned from i inside the loop
+        for st in ast.walk(lp):
+            if isinstance(st, ast.Assign) and isinstance(st.value, ast.Name) and \
+                    st.value.id == i and isinstance(st.targets[0], ast.Name):
+                R = st.targets[0].id
+        inner = [x for x in ast.walk(lp) if isinstance(x, ast.For) and x is not lp]
+        k = inner[0].target.id if inner and isinstance(inner[0].target,
+                                                       ast.Name) else None
+        if R is not None and k is not None:
+            for r in ast.walk(lp):
+                if isinstance(r, ast.Raise):
+                    facts = atoms(enclosing_tests(lp, r) or [])
+                    nonconst = (f"{k}!=1", True) in facts or \
+                        (f"{k}==1", False) in facts
+                    seen = (f"{R}isnotNone", True) in facts or \
+                        (f"{R}isNone", False) in facts
+                    other = (f"{R}!={i}", True) in facts or \
+                        (f"{i}!={R}", True) in facts or \
+                        (f"{R}=={i}", False) in facts or (f"{i}=={R}", False) in facts
+                    okA = okA or (nonconst and seen and other)
+    ctx.ob("P/CoefficientCollector/map_product/nonlinear-raises", okA, where(mem),
+           "a second factor with a non-constant key raises" if okA else
+           "CoefficientCollector.map_product no longer raises when two different "
+           "factors carry variables: a nonlinear product yields coefficients")
+    # the name the scan's result is known by afterwards (inlined helper: the
+    # returned value is copied into the caller's variable)
+    r_names = {R} if R else set()
+    for _ in range(3):
+        for st in ast.walk(fn):
+            if isinstance(st, ast.Assign) and isinstance(st.value, ast.Name) and \
+                    st.value.id in r_names and isinstance(st.targets[0], ast.Name):
+                r_names.add(st.targets[0].id)
+    # (B) the multiplying pass
+    okB = False
+    for lp in loops:
+        if lp in scan:
+            continue
+        i = lp.target.elts[0].id
+        cdict = lp.target.elts[1].id if isinstance(lp.target.elts[1],
+                                                   ast.Name) else None
+        for st in ast.walk(lp):
+            mult = None
+            if isinstance(st, ast.AugAssign) and isinstance(st.op, ast.Mult):
+                mult = st.value
+            elif isinstance(st, ast.Assign) and isinstance(st.value, ast.BinOp) \
+                    and isinstance(st.value.op, ast.Mult) and \
+                    U(st.targets[0]) in (U(st.value.left), U(st.value.right)):
+                mult = st.value.right if U(st.targets[0]) == U(st.value.left) \
+                    else st.value.left
+            if mult is None or U(mult) != f"{cdict}[1]":
+                continue
+            facts = atoms(enclosing_tests(lp, st) or [])
+            if any(((f"{i}!={r}", True) in facts or (f"{r}!={i}", True) in facts
+                    or (f"{i}=={r}", False) in facts or (f"{r}=={i}", False)
+                    in facts) for r in r_names):
+                okB = True
+    ctx.ob("K/CoefficientCollector/map_product/all-factors", okB, where(mem),
+           "all other factors are multiplied into the coefficient" if okB else
+           "map_product does not multiply every other factor's constant into the "
+           "coefficient")
 
 
 def _matrix_names(fn):
